@@ -121,7 +121,7 @@ func (u *Universe) oblText(o *Obl, withModel bool) string {
 		}
 	}
 	b.WriteString("; ---- string literals\n")
-	b.WriteString(litDecls(lits))
+	b.WriteString(litDecls(lits, o.BV))
 	b.WriteString(spec)
 	b.WriteString("; ---- declarations\n")
 	for _, d := range o.Decls {
